@@ -517,7 +517,7 @@ def _expand(chunk: t.Tuple[int, int]) -> t.List[t.Any]:
     return out
 
 
-STATE_CAP = 60000  # ~30x the state count of the pinned tree at the thorough bound: a space that keeps growing is cut here
+STATE_CAP = 30000  # several times the state count of the pinned tree at the thorough bound: a space that keeps growing is cut here
 
 
 def explore(role: str, kmax: int, known: t.Set[t.Tuple[str, str]], seed: int = 0, parallel: bool = False, prop: t.Optional[str] = None) -> Result:
@@ -557,6 +557,9 @@ def explore(role: str, kmax: int, known: t.Set[t.Tuple[str, str]], seed: int = 0
                     res.unexpanded += 1
                     continue
                 if key not in seen:
+                    if res.states > STATE_CAP:
+                        res.capped = True
+                        continue
                     seen[key] = len(seen)
                     res.states += 1
                     h2 = hist + [ev]
